@@ -216,10 +216,14 @@ func (vc *VC) verifyBody() {
 		case "ensures":
 			t := vc.evalClause(exit, fi.Spec, c.Expr, vc.entry)
 			vc.oblige(exit, "post", c.Name, c.Pos, t, "postcondition "+c.Name)
-			// later postconditions may use earlier ones as lemmas (each is itself an obligation)
-			vc.curLabel = "post." + c.Name
-			vc.assume(exit, t)
-			vc.curLabel = ""
+			// later postconditions may use earlier ones as lemmas (each is itself an obligation) - except a
+			// postcondition listed as an open known finding: it is known NOT to hold, and assuming it would
+			// make the clauses after it provable from a falsehood
+			if !knownFailing[fi.Key+"/post."+c.Name] {
+				vc.curLabel = "post." + c.Name
+				vc.assume(exit, t)
+				vc.curLabel = ""
+			}
 		}
 	}
 	vc.unbind(b)
@@ -539,6 +543,9 @@ func dischargeAll(results []*FuncResult, timeout time.Duration, workdir string, 
 		o.Res = total
 	}
 }
+
+// knownFailing: obligations listed as open known findings (any property); loaded from known_findings.json.
+var knownFailing = map[string]bool{}
 
 // ---- lock state at function boundaries ---------------------------------------------------------------
 
